@@ -412,7 +412,7 @@ def run_player(player, scratch, name, script_lines, shards, out_name="hist.ndjso
         groups = split_recordings(op)
         if not per_script:
             # one recording per shard: [Reset, line per script ...]
-            if len(groups) != 1 or len(groups[0]) != len(ch) + 1:
+            if len(groups) != 1 or len(groups[0]) not in (len(ch) + 1, len(ch) + 2):   # + a trailing summary line
                 raise Inconclusive("player %s produced %d lines for %d scripts" % (name, sum(len(g) for g in groups), len(ch)))
             return [(ch, groups[0])]
         if len(groups) != len(ch):
